@@ -797,7 +797,7 @@ class SimPool:
         owner = [(assign[i % len(assign)] if assign else i) % nproc for i in range(ntask)]
         exc_plan = {int(k): v for k, v in (self.plan.get("exc") or {}).items()}
         ev("pool", "run", ntask, nproc, owner)
-        for w in range(nproc):
+        for w in sorted(set(owner)):  # (not range(nproc): the option may ask for 10**9 workers)
             mine = [i for i in range(ntask) if owner[i] == w]
             if not mine:
                 continue
